@@ -527,6 +527,63 @@ def rule_last_item_loose(ctx, rep):
     rep.floor(rule, n, 8)
 
 
+FENCE_ROWS = [
+    # (opening line, later line, is it the closing fence?)  CommonMark 0.30, 4.5
+    ('```\n', '```\n', True), ('```\n', '````\n', True), ('```\n', '``\n', False),
+    ('```\n', '   ```\n', True), ('```\n', '    ```\n', False),
+    ('```\n', '```  \n', True), ('```\n', '```\t\n', True),
+    ('```\n', '```abc\n', False), ('```\n', '``` abc\n', False), ('```\n', '```~~~\n', False), ('```\n', '~~~\n', False),
+    ('```\n', '``` ```\n', False),
+    ('~~~~\n', '~~~\n', False), ('~~~~\n', '~~~~\n', True), ('~~~~\n', '~~~~~~\n', True), ('~~~~\n', '````\n', False),
+    ('~~~~\n', '~~~~ ~\n', False), ('~~~~\n', '~~~~x\n', False),
+    ('  ```\n', '```\n', True), ('  ```\n', '   ```\n', True), ('```python\n', '```\n', True), ('```python\n', '```python\n', False),
+]
+
+
+def rule_fence_close(ctx, rep):
+    """Which line ends a fenced code block: the same fence character, at least as many of them as the opening
+    fence has, indented at most three spaces, followed by nothing but spaces and tabs. CodeFence.start and
+    CodeFence.read are folded on one line of every class of that rule (the fence length is a spelling the writer
+    of a document is free to choose, so a line that the specification keeps as content must stay content)."""
+    model = ctx.model
+    rule = 'R-FENCE-CLOSE'
+    rep.rule(rule, 'a line closes a fenced code block exactly when the specification says so (table of line classes)')
+    cf = model.cls('block_token.CodeFence')
+    fw = model.cls('block_tokenizer.FileWrapper')
+    rd = cf.lookup('read')[1]
+    bad = []
+    n = 0
+    for opening, line, closes in FENCE_ROWS:
+        rep.instance(rule)
+        it = Interp(model, loop_bound=8, while_bound=8)
+        it.reset_run(Oracle())
+        try:
+            started = it.call(it.getattr(cf, 'start'), [opening], {})
+            if not started:
+                raise AnalysisError('CodeFence.start rejects the opening fence %r' % opening)
+            w = it.construct(fw, [[opening, line, 'x\n']], {})
+            res = it.call(it.getattr(cf, 'read'), [w], {})
+            bufs = [x for x in (res if isinstance(res, tuple) else [res]) if isinstance(x, list)]
+            if len(bufs) != 1:
+                raise AnalysisError('CodeFence.read does not return one line buffer: %r' % (res,))
+            got = len(bufs[0]) == 0
+        except Raised as r:
+            got = 'raises %s' % r.exc.kind
+        n += 1
+        ok = got == closes
+        rep.obligation(rule, ok, {'opening': opening, 'line': line, 'closes': got, 'specification': closes})
+        if not ok:
+            bad.append((opening, line, got, closes))
+    if bad:
+        opening, line, got, closes = bad[0]
+        rep.find(rule, rd.short, 'row:%r/%r' % (opening.strip(), line.rstrip('\n')),
+                 'after the opening fence %r the line %r %s; by the specification it %s (%d of %d table rows differ)'
+                 % (opening, line, 'ends the code block' if got is True else 'is kept as content' if got is False else got,
+                    'ends the block' if closes else 'is content', len(bad), len(FENCE_ROWS)),
+                 loc(model.unit_of(rd), rd.node), witness=opening + line + 'x\n')
+    rep.floor(rule, n, 20)
+
+
 def rule_def_account(ctx, rep):
     """Link reference definitions followed directly by other content: Footnote.read joins the lines up to
     the next blank line, scans definitions, and must hand back exactly the lines the definitions did not
@@ -656,6 +713,7 @@ def run(ctx):
     rep = ctx.report
     rule_loose_signal(ctx, rep)
     rule_last_item_loose(ctx, rep)
+    rule_fence_close(ctx, rep)
     # the cursor protocol the readers' hand-back arithmetic rests on (shared with C13)
     from . import c13
     c13.rule_filewrapper(ctx, rep)
